@@ -6,8 +6,9 @@
 
   Threads: clients `0..n-1` run scripts of `start()`, an event (`dispatch`), `stop()`, `sleep`; helper
   threads are appended in creation order (the debouncer by `start()`, one watcher per spawned child).
-  `_stopping_lock` is only held inside one region, so it is not a state component; `_restart_lock` and
-  the debouncer's condition lock are (a restart runs inside the debouncer's callback, lock held).
+  `_stopping_lock` is held across a visible operation only by `start()` (the yield after the debouncer's
+  `Thread.start`): "some thread is at `saDebStarted`" is its owner; `_restart_lock` and the debouncer's condition
+  lock are state components (a restart runs inside the debouncer's callback, lock held).
 -/
 namespace WD.Rst
 
@@ -36,7 +37,8 @@ inductive Pc
   | done
   | sleeping (dl : Nat)
   -- start()
-  | saDebStarted                     -- after `event_debouncer.start()`
+  | saSAcq                           -- `with self._stopping_lock:` in start()
+  | saDebStarted                     -- after `event_debouncer.start()` (`_stopping_lock` held)
   | saRAcq                           -- `with self._restart_lock:` in start()
   | saStarted                        -- after `process_watcher.start()` (lock held)
   -- an event
@@ -168,13 +170,21 @@ def arrive (s : State) (i : Nat) : State :=
     | .stop :: rest => s.setThread i { t with pc := .stAcq, script := rest }
     | .event :: rest =>
       s.setThread i { t with pc := if s.debTid.isSome then .evCond else .rAcq, script := rest }
-    | .start :: rest =>
-      if s.cfg.interval != 0 then
-        -- EventDebouncer(...).start(): the new thread exists, the starter yields
-        let d := s.threads.length
-        let s1 := s.setThread i { t with pc := .saDebStarted, script := rest }
-        { s1 with threads := s1.threads ++ [{ kind := .deb, pc := .begin }], debTid := some d }
-      else s.setThread i { t with pc := .saRAcq, script := rest }
+    | .start :: rest => s.setThread i { t with pc := .saSAcq, script := rest }
+
+/-- `_stopping_lock` is taken: `start()` holds it while it creates and starts the debouncer -/
+def State.startHolds (s : State) : Bool := s.threads.any (fun t => t.pc == .saDebStarted)
+
+/-- `start()` from the acquisition of `_stopping_lock`: a trick that is stopping is left alone; the debouncer is created
+    once -/
+def startBody (s : State) (i : Nat) : State :=
+  if s.trickStopping then arrive (s.log (.started i s.clock)) i
+  else if s.cfg.interval != 0 && s.debTid.isNone then
+    -- EventDebouncer(...).start(): the new thread exists, the starter yields (lock held)
+    let d := s.threads.length
+    let s1 := s.setPc i .saDebStarted
+    { s1 with threads := s1.threads ++ [{ kind := .deb, pc := .begin }], debTid := some d }
+  else s.setPc i .saRAcq
 
 def State.debRunning (s : State) : Bool :=
   match s.debTid with
@@ -292,15 +302,16 @@ def enabledT (s : State) (t : Thread) : Bool :=
   | .begin => true
   | .done => false
   | .sleeping dl => dl ≤ s.clock
+  | .saSAcq => !s.startHolds
   | .saDebStarted => true
   | .saRAcq => s.restartOwner.isNone
   | .saStarted => true
   | .evCond => !s.condHeld
   | .rAcq => s.restartOwner.isNone
-  | .spAcq _ => true
+  | .spAcq _ => !s.startHolds
   | .spSleep _ dl _ => dl ≤ s.clock
   | .rStarted => true
-  | .stAcq => true
+  | .stAcq => !s.startHolds
   | .stCond => !s.condHeld
   | .stRAcq => s.restartOwner.isNone
   | .stJoinDeb _ => (match s.debTid with | some d => s.isDone d | none => true)
@@ -324,6 +335,7 @@ def stepT (s : State) (i : Nat) (t : Thread) : State :=
      | .deb => s.setPc i .dAcq
      | .watcher pid => watcherLoop s i pid)
   | .sleeping _ => arrive s i
+  | .saSAcq => startBody s i
   | .saDebStarted => s.setPc i .saRAcq
   | .saRAcq =>
     let s1 := { s with restartOwner := some i }
